@@ -141,6 +141,8 @@ class WebsocketBuffer:
         self.max_length = max_length
 
     def extend(self, event: Message) -> None:
+        if self.length > self.max_length:
+            raise FrameTooLargeError()  # Already too large, nothing more is accepted
         if self.value is None:
             if isinstance(event, TextMessage):
                 self.value = StringIO()
